@@ -28,7 +28,9 @@ type C19Case struct {
 
 var c19Protocols = []string{"unix", "unix", "unix", "tcp", "tcp", "UNIX", "Unix", "udp", "unixgram", "http", "", " unix", "unix ", "tcp4", "ip"}
 var c19UnixPaths = []string{"", "@{U}", "@{U}", "@", "rel-{U}", "./rel-{U}", "{DIR}/abs-{U}", "{DIR}/abs-{U}", "{DIR}/sub/none-{U}", "{DIR}/" + "long-long-long-long-long-long-long-long-long-long-long-long-long-long-long-long-long-long-long-long-long-long-long-{U}",
-	"@long-long-long-long-long-long-long-long-long-long-long-long-long-long-long-long-long-long-long-long-long-long-long-long-{U}", "{DIR}/a b-{U}", "{DIR}/a:b-{U}", "{DIR}/é-{U}", "{DIR}", "/", ".", "@@{U}", "{DIR}/@{U}"}
+	"@long-long-long-long-long-long-long-long-long-long-long-long-long-long-long-long-long-long-long-long-long-long-long-long-{U}", "{DIR}/a b-{U}", "{DIR}/a:b-{U}", "{DIR}/é-{U}", "{DIR}", "/", ".", "@@{U}", "{DIR}/@{U}",
+	// spellings that a path normaliser would rewrite: abstract names are opaque bytes, and a filesystem path must mean the same to both sides
+	"@{U}//x", "@{U}/./x", "@{U}/", "@a-{U}/../b", "@./{U}", "{DIR}/abs-{U}/", "{DIR}/none-{U}/../abs-{U}", "{DIR}//abs-{U}", "{DIR}/./abs-{U}", "./sub/../rel-{U}"}
 var c19TCPHosts = []string{"127.0.0.1:{PORT}", "127.0.0.1:{PORT}", "127.0.0.1:0", "localhost:{PORT}", "[::1]:{PORT}", ":{PORT}", "127.0.0.1", "", "256.1.1.1:80", "127.0.0.1:99999", "host.invalid:{PORT}", "127.0.0.1:http", "127.0.0.1:{PORT}:extra", ":"}
 var c19Tails = []string{"", "", "", ";", ";mode=0600", ";a;b", ";x:y", ";{DIR}/other-{U}", ";;", "; "}
 
@@ -63,7 +65,7 @@ func genC19(t *rapid.T) C19Case {
 	return C19Case{
 		Addr: genAddr(t),
 		Op:   rapid.SampledFrom([]string{"bind", "bind", "listen", "connect"}).Draw(t, "op"),
-		Pre:  rapid.SampledFrom([]string{"fresh", "fresh", "failed-bind", "bound", "bound-same", "served", "stale-socket"}).Draw(t, "pre"),
+		Pre:  rapid.SampledFrom([]string{"fresh", "fresh", "failed-bind", "bound", "bound-same", "served", "stale-socket", "draining"}).Draw(t, "pre"),
 	}
 }
 
@@ -266,6 +268,22 @@ func execC19(c C19Case, bound time.Duration) (facts map[string]bool, err error) 
 	}
 
 	prevAddr := ""
+	var linger net.Conn
+	var drainDone chan error
+	oldEnded := false
+	endOld := func() bool { // the previous cycle's last client leaves; its serving call must return
+		if linger == nil || oldEnded {
+			return true
+		}
+		oldEnded = true
+		linger.Close()
+		select {
+		case <-drainDone:
+			return true
+		case <-time.After(bound):
+			return false
+		}
+	}
 	switch c.Pre {
 	case "failed-bind":
 		if perr := Guard(func() error { svc.Bind(ctx, "nonsense"); return nil }); perr != nil {
@@ -297,6 +315,41 @@ func execC19(c C19Case, bound time.Duration) (facts map[string]bool, err error) 
 		if serr := serveOnce(prevAddr); serr != nil {
 			return facts, fmt.Errorf("pre-state (bind, serve, shutdown): %v", serr)
 		}
+	case "draining":
+		// an earlier serving call on another address was shut down but has not returned yet: one of its clients
+		// is still connected. The object is bound and served again meanwhile; when that old client finally leaves,
+		// nothing of the new cycle may be touched.
+		prevAddr = "unix:@pre-" + u
+		if berr := svc.Bind(ctx, prevAddr); berr != nil {
+			return facts, fmt.Errorf("HARNESS: pre-state Bind: %v", berr)
+		}
+		drainDone = make(chan error, 1)
+		go func(d chan error) { d <- svc.DoListen(ctx, 0) }(drainDone)
+		for dl := time.Now().Add(bound); ; {
+			linger, err = net.DialTimeout("unix", "@pre-"+u, time.Second)
+			if err == nil {
+				break
+			}
+			if time.Now().After(dl) {
+				return facts, fmt.Errorf("HARNESS: pre-state dial: %v", err)
+			}
+			time.Sleep(time.Millisecond)
+		}
+		err = nil
+		defer linger.Close()
+		for dl := time.Now().Add(bound); svc.VerifActiveConnections() != 1 && time.Now().Before(dl); {
+			time.Sleep(100 * time.Microsecond)
+		}
+		shutdown()
+		// the old call's accept loop has been told to stop; once it has let go of the listener (it does so before
+		// it waits for its connections) the object may be bound again - not earlier
+		for dl := time.Now().Add(time.Second * WatchdogScale()); time.Now().Before(dl); {
+			if l, _ := svc.GetListener(); l == nil {
+				break
+			}
+			time.Sleep(100 * time.Microsecond)
+		}
+		facts["previous-cycle-still-draining"] = true
 	case "stale-socket":
 		if m.fsPath != "" && m.class == "strict" {
 			if l, lerr := net.Listen("unix", m.fsPath); lerr == nil {
@@ -436,6 +489,24 @@ func execC19(c C19Case, bound time.Duration) (facts map[string]bool, err error) 
 			}
 			reached, msg := c19RoundTrip(svc, token, addr, m, c.Op == "listen", done, bound)
 			facts["round-trip"] = reached
+			if linger != nil && reached && msg == "" {
+				// the old cycle's last client leaves now, its serving call returns - the new cycle goes on undisturbed
+				if !endOld() {
+					shutdown()
+					return facts, fmt.Errorf("the earlier serving call did not return within %v after its last connection ended", bound)
+				}
+				time.Sleep(2 * time.Millisecond)
+				if m.fsPath != "" && m.class == "strict" && !isSocket(m.fsPath) {
+					shutdown()
+					return facts, fmt.Errorf("%s(%q) is being served, but when the previous serving call (shut down earlier, on %s) returned, the socket path %q disappeared", c.Op, addr, prevAddr, m.fsPath)
+				}
+				if again, msg2 := c19RoundTrip(svc, token, addr, m, c.Op == "listen", done, bound); !again || msg2 != "" {
+					shutdown()
+					return facts, fmt.Errorf("%s(%q) was reachable, but no longer after the previous serving call (shut down earlier, on %s) returned: %s", c.Op, addr, prevAddr, msg2)
+				}
+				facts["old-cycle-ended-during-new-cycle"] = true
+			}
+			endOld()
 			dl := time.Now().Add(bound)
 			for svc.VerifActiveConnections() != 0 && time.Now().Before(dl) {
 				time.Sleep(100 * time.Microsecond)
@@ -462,6 +533,9 @@ func execC19(c C19Case, bound time.Duration) (facts map[string]bool, err error) 
 		}
 	}
 after:
+	if !endOld() {
+		return facts, fmt.Errorf("the earlier serving call (shut down before %s(%q)) did not return within %v after its last connection ended", c.Op, addr, bound)
+	}
 	// whatever happened, the object must still be able to bind and serve a good address
 	if (c.Pre == "bound" || c.Pre == "bound-same") && preListener != nil {
 		preListener.Close()
@@ -544,7 +618,7 @@ func TestC19Grammar(t *testing.T) {
 	for _, a := range []string{"foo", "", "unix", "unix;x", "@{U}", "{DIR}/abs-{U}", ";"} {
 		add(a)
 	}
-	pres := []string{"fresh", "failed-bind", "bound", "bound-same", "served", "stale-socket"}
+	pres := []string{"fresh", "failed-bind", "bound", "bound-same", "served", "stale-socket", "draining"}
 	ops := []string{"bind", "listen", "connect"}
 	shard, nshards := Shard()
 	i := 0
